@@ -70,6 +70,7 @@ def streams(tier, rng, P, only=None, cases=None):
             add('STR Zqx={"%s"} Zqx f' % "".join(fw(ch) if rng.random() < 0.4 else ch for ch in a), "fw")
         # corpus of past crashes / hangs
         add('STR A={"｛cde｝4"} A f', "corpus")
+        for src in ["[(-1) ]", "[(-1) c] d", "INT N=0-1; [(N) c] d", "[=-1 c d] e", "INT N=0-9223372036854775807; [(N) [(N) c]]"]: add(src, "corpus")
         # logs longer than the 4096-character cap made of multi-byte text, at every alignment of the cut
         for k in range(0, 7):
             add("Print({%s}) FOR(INT I=0;I<120;I++){ Print({春の歌、桜、弥生の空は見渡す限り}) } l4 cde" % ("a" * k), "corpus")
@@ -155,6 +156,20 @@ def streams(tier, rng, P, only=None, cases=None):
             src = rng.choice(["", " "]).join(rng.choice(fr) for _ in range(rng.randrange(2, 6)))
             if src.count("WHILE(") + src.count("FOR(") > 1 or "Random(" in src and "TR" in src: continue
             add(re.sub(r"\d{5,}", lambda m: m.group(0)[:3], src), "k")
+        # every fragment (and a list of stateful suffixes) after a command that puts a part of the state at the edge of the 64-bit
+        # range: the time pointer, the default length, key shifts, velocity/gate/timing/octave, reservations, ramps
+        M = "9223372036854775807"; N = "-9223372036854775808"
+        pre = ["TIME(%s) " % M, "TIME(%s) " % N, "l%%%s " % M, "l%%-%s " % M, "KeyFlag=(%s) " % ",".join([M] * 7), "TrackKey(%s) " % M, "TrackKey(%s) " % N, "KeyShift(%s) " % M,
+               "KeyShift(%s) " % N, "v%s " % M, "q%s " % M, "t%s " % M, "t%s " % N, "o%s " % M, "MeasureShift(%s) " % M, "vAdd(%s) " % M, "qAdd(%s) " % M, "v.Random(%s) " % M,
+               "t.Random(%s) " % M, "q.Random(%s) " % M, "o.Random(%s) " % M, "INT A=%s; " % M, "TIME(%s) l%%%s " % (M, M), "r%%%s " % M, "r%%%s r%%%s " % (M, M), "Tempo(%s) " % M,
+               "CH(%s) " % M, "PB(%s) " % M, "p%s " % M, "BR(%s) " % M, "Slur(1,%s) " % M, "Slur(2,%s) " % M, "Slur(3,%s) " % M, "l.onNote(%s,%s) " % (M, M), "t.onNote(%s,%s) " % (M, N),
+               "o.onNote(%s) " % M, "q.onNote(%s) " % M, "v.onNote(%s) " % M, "v.onTime(%s,%s,96) " % (M, N), "TimeSignature(%s,4) " % M, "RandomSeed(%s) " % M]
+        suf = ["", "c", "c&d e", "'ce' d", "{cd}4", "q++ c", "q-- c", "v++ c", "( c", ") c", "> c", "< c", "` c", '" c', "q__5 c", "v__5 c", "r c", "n60", "n60& n62", "c^c", "l4 c", "[3 c]",
+               "Sub{c} d", "PLAY({c},{d})", "TrackSync c", "? c", "y1,5 c", "y1.onNote(1,2) c", "Cresc(1) c", "PB.T(0,1,!8) c", "M.onTime(0,9,9) c", "TempoChange(100,120,!4) c", "TimeSig(3,4) TIME(2:1:0) c"]
+        for pi, p_ in enumerate(pre):
+            for a in (suf + fr if big else suf + [x for k_, x in enumerate(fr) if (k_ + pi) % 4 == 0]):
+                if "WHILE(" in a or "FOR(" in a: continue
+                add(p_ + a, "edge")
         for j, s_ in enumerate(mml.sample_sources()): add(s_, "sample%d" % j)
         return cs
     s4 = Stream("overflow", cases if (cases and only == "overflow") else mk_ovf(), lambda c, st, f: [], judge, nt, "overflow-checked build: extreme numbers, fragments, songs", timeout_case=15.0)
